@@ -30,6 +30,14 @@ Lemma cr_ser A U TL R se dhe dps hi pt q f :
   ser (cr_url A U TL R se dhe dps hi pt q f) = ((A ++ U) ++ TL) ++ R ++ qf_text q f.
 Proof. unfold cr_url, qf_url. cbn [ser]. rewrite <- !app_assoc. reflexivity. Qed.
 
+Lemma adjust_qs' n a m q : a <= n -> adjust_opt dbg (qf_qs n q) a m = Some (qf_qs (n - a + m) q).
+Proof. intros H. destruct q; cbn [qf_qs adjust_opt]; [|reflexivity]. rewrite adjust_ge by exact H. reflexivity. Qed.
+
+Lemma adjust_fs' n a m q f : a <= n -> adjust_opt dbg (qf_fs n q f) a m = Some (qf_fs (n - a + m) q f).
+Proof.
+  intros H. destruct f; cbn [qf_fs adjust_opt]; [|reflexivity]. rewrite adjust_ge by lia. cbn [bindo]. do 2 f_equal. lia.
+Qed.
+
 (* set_password with a non-empty argument *)
 Theorem set_password_frame A U TL R se dhe dps hi pt q f y : usv_list y -> y <> [] ->
   cannot_have_credentials_or_port (cr_url A U TL R se dhe dps hi pt q f) = Some false ->
@@ -103,6 +111,10 @@ Proof.
     exfalso; (apply H1; reflexivity) || (apply H2; reflexivity).
 Qed.
 
+Lemma un_pick_other' {T} e after c r (k64t : list N -> T) k64f k58 kt kf : after = c :: r -> c <> 58 -> c <> 64 ->
+  un_pick e after k64t k64f k58 kt kf = if e then kt else kf.
+Proof. intros ->. apply un_pick_other. Qed.
+
 Section FrameUser.
 Variable dbg : bool.
 Variables (sch R : list N) (dhe dps : N) (hi : host_internal) (pt : option N) (q f : option (list N)).
@@ -117,9 +129,9 @@ Proof. rewrite nlen_app, nlenA. destruct E as [|e E']; [rewrite nlen_nil | rewri
 
 (* everything up to the five-way case distinction *)
 Lemma set_username_pre U TL x : usv_list x -> cannot_have_credentials_or_port (CU U TL) = Some false ->
-  list_eqb U (utf8_encode x) = false ->
   set_username dbg (CU U TL) x
-  = (let s := A ++ uenc x in let after_username := TL ++ R ++ qf_text q f in
+  = if list_eqb U (utf8_encode x) then Some (CU U TL, SOk) else
+    (let s := A ++ uenc x in let after_username := TL ++ R ++ qf_text q f in
      let removed0 := nlen (A ++ U) in let new_ue := nlen s in
      let '(s', removed, added) :=
        un_pick (match uenc x with [] => true | _ => false end) after_username
@@ -133,7 +145,7 @@ Lemma set_username_pre U TL x : usv_list x -> cannot_have_credentials_or_port (C
      fs <- adjust_opt dbg (qf_fs (nlen (((A ++ U) ++ TL) ++ R)) q f) removed added ;;
      Some (mkUrl s' (nlen sch) new_ue hs he hi pt ps qs fs, SOk)).
 Proof.
-  intros Hx Hc Hsc. unfold set_username. rewrite Hc. cbn [bindo].
+  intros Hx Hc. unfold set_username. rewrite Hc. cbn [bindo].
   unfold u_slice, u_slice_from. rewrite cr_ser.
   change (scheme_end (CU U TL)) with (nlen sch).
   change (host_start (CU U TL)) with (nlen ((A ++ U) ++ TL)).
@@ -155,7 +167,7 @@ Proof.
     replace (((A ++ U) ++ TL) ++ R ++ qf_text q f) with (A ++ U ++ (TL ++ R ++ qf_text q f)) by (rewrite <- !app_assoc; reflexivity).
     rewrite nskipn_app_len. replace (nlen (A ++ U) - nlen A) with (nlen U) by (clear; llia).
     rewrite nfirstn_app_len. reflexivity. }
-  cbn [bindo]. rewrite Hsc.
+  cbn [bindo]. destruct (list_eqb U (utf8_encode x)); [reflexivity|].
   assert (slice_from_o SER (nlen (A ++ U)) = Some (TL ++ R ++ qf_text q f)) as ->.
   { rewrite slice_from_o_some by (unfold SER; clear; llia). unfold SER. rewrite <- (app_assoc (A ++ U)). rewrite nskipn_app_len. reflexivity. }
   cbn [bindo].
@@ -242,6 +254,49 @@ Proof.
   destruct Ht as (_ & Hnn & _). destruct (hd h) as [|c r] eqn:E; [contradiction|]. exists c, r. split; [reflexivity|].
   cbn [forallb] in Hf. apply andb_true_iff in Hf. destruct Hf as [Hc _]. unfold plainc in Hc.
   apply andb_true_iff in Hc. destruct Hc as [Hc _]. apply andb_true_iff in Hc. destruct Hc as [_ Hc]. apply negb_true_iff in Hc. lia.
+Qed.
+
+Lemma uenc_clean_id U : clean T_USERINFO U = true -> uenc U = U.
+Proof. intros H. unfold uenc. rewrite utf8_encode_ascii by (apply (clean_ascii T_USERINFO); exact H). apply encode_clean. exact H. Qed.
+
+Ltac rec_eq :=
+  match goal with |- Some (?a, SOk) = Some (?b, SOk) => assert (a = b) as ->; [|reflexivity] end;
+  rewrite auth_url_cr; unfold cr_url, qf_url; cbn [ui_user ui_tail];
+  f_equal; try (clear; unfold s_css; llia); try (f_equal; clear; unfold s_css; llia);
+  try (rewrite <- !app_assoc; cbn [app]; rewrite <- ?app_assoc; reflexivity).
+
+Theorem set_username_auth st sch ui h pt p q f x : auth_ok st sch ui h pt p q f -> st_is_file st = false ->
+  h <> HDomain [] -> usv_list x ->
+  set_username dbg (auth_url sch ui h pt p q f) x
+  = Some (auth_url sch (ui_set_user ui (uenc x)) h pt p q f, SOk).
+Proof.
+  intros K Hnf Hne Hx.
+  pose proof (auth_cannot_port hp hpo hd st sch ui h pt p q f K Hnf) as Hc.
+  assert (match h with HDomain [] => true | _ => false end = false) as Eh by (destruct h as [[|d0 d]|a|pcs]; try reflexivity; contradiction).
+  rewrite Eh in Hc. pose proof (ak_ui _ _ _ _ _ _ _ _ _ _ _ K) as Kui.
+  destruct (hd_head st h (ak_h _ _ _ _ _ _ _ _ _ _ _ K) Hne) as (c0 & r0 & Ehd & Hc58 & Hc64).
+  rewrite (auth_url_cr sch ui) in Hc |- *.
+  rewrite (set_username_pre dbg sch _ _ _ _ _ _ _ _ _ x Hx Hc).
+  destruct (list_eqb (ui_user ui) (utf8_encode x)) eqn:Hsc.
+  - apply list_eqb_spec in Hsc. pose proof (ui_user_clean ui Kui) as Hcl.
+    assert (utf8_encode x = x) as Ex by (apply utf8_encode_ascii_inv'; rewrite <- Hsc; apply (clean_ascii T_USERINFO); exact Hcl).
+    rewrite Ex in Hsc. subst x. rewrite (uenc_clean_id _ Hcl). rewrite <- auth_url_cr.
+    do 3 f_equal. destruct ui as [|u|u pw]; cbn [ui_set_user ui_user]; try reflexivity.
+    destruct Kui as [_ Hn]. destruct u; [contradiction | reflexivity].
+  - cbv zeta. destruct ui as [|u|u pw]; cbn [ui_user ui_tail ui_set_user] in *.
+    + (* no credentials so far *)
+      destruct (uenc x) as [|e E'] eqn:EE.
+      { apply uenc_nil_inv in EE. subst x. discriminate Hsc. }
+      erewrite un_pick_other'; [| cbn [app]; rewrite Ehd; reflexivity | assumption | assumption].
+      rewrite !adjust_ge by (clear; llia). cbn [bindo]. rewrite adjust_qs', adjust_fs' by (clear; llia). cbn [bindo].
+      rec_eq.
+    + destruct (uenc x) as [|e E'] eqn:EE; cbn [app].
+      * rewrite un_pick_64t. rewrite !adjust_ge by (clear; llia). cbn [bindo]. rewrite adjust_qs', adjust_fs' by (clear; llia). cbn [bindo].
+        rec_eq.
+      * rewrite un_pick_64f. rewrite !adjust_ge by (clear; llia). cbn [bindo]. rewrite adjust_qs', adjust_fs' by (clear; llia). cbn [bindo].
+        rec_eq.
+    + cbn [app]. rewrite un_pick_58. rewrite !adjust_ge by (clear; llia). cbn [bindo]. rewrite adjust_qs', adjust_fs' by (clear; llia). cbn [bindo].
+      rec_eq.
 Qed.
 
 End CredAuth.
